@@ -217,10 +217,13 @@ pub fn trace(seed: u64, runs: usize, dir: &str, maxrecs: usize, what: &str) {
 /// file being its own counting input; rows judged from the runs alone (RunLength.tla)
 pub fn big(seed: u64, dir: &str) {
     let mut rng = Rng::new(seed);
-    for (i, &(k, bs, bc)) in [(4usize, 1000usize, 32usize), (12, 3, 100_000), (31, 70_000, 4), (7, 1, 5), (5, 9, 6), (5, 9, 6)].iter().enumerate() {
+    // (run 4: the multiplicity of A..A is 17 000 001 = 3 x 5 666 667 - an odd number beyond 2^24, which single precision rounds
+    // down to 17 000 000 - and the bin size is 5 666 667: bin 3 exactly)
+    for (i, &(k, bs, bc)) in [(4usize, 1000usize, 32usize), (12, 3, 100_000), (31, 70_000, 4), (7, 1, 5), (5, 5_666_667, 6), (5, 9, 6)].iter().enumerate() {
         // the last two runs (raw and normalised): one record puts more than 2^24 windows into a single bin
         let plans: Vec<Vec<(u8, u64)>> = if i >= 4 {
-            vec![vec![(1, 40 + rng.below(9)), (0, 17_000_000 + rng.below(1000)), (2, 60)], vec![(0, 50), (3, 50)]]
+            let a_run = if i == 4 { 16_999_913 } else { 17_000_000 + rng.below(1000) };      // + 46 + 46 windows in the second record
+            vec![vec![(1, 40 + rng.below(9)), (0, a_run), (2, 60)], vec![(0, 50), (3, 50)]]
         } else {
             vec![
             vec![(0, 140_000 + rng.below(500)), (1, 66_000 + rng.below(500)), (4, 31 + rng.below(5)), (2, 31 + rng.below(50)), (3, 70_000 + rng.below(50))],
